@@ -365,7 +365,24 @@ func oneMessage(rt *rapid.T, w *world, via string) {
 
 	nCmd := rapid.IntRange(3, 6).Draw(rt, "ncmd")
 
+	// sometimes the message files vanish from the on-disk store between two commands (cache loss: the literal is
+	// downloaded from the connector again and written back); what FETCH returns must not change
+	loseAt := -1
+	if rapid.IntRange(0, 7).Draw(rt, "cacheLoss") == 0 {
+		loseAt = rapid.IntRange(0, nCmd-2).Draw(rt, "loseAt")
+	}
+
 	for c := 0; c < nCmd; c++ {
+		if c == loseAt {
+			if err := w.loseStoreFiles(); err != nil {
+				rt.Fatalf("VERIF-INCONCLUSIVE: cannot remove the store files: %v", err)
+			}
+
+			labels["fault:store-files-lost"] = true
+
+			cmds = append(cmds, "(store files removed)")
+		}
+
 		targets := []*msg{m}
 		both := companion != nil && rapid.IntRange(0, 2).Draw(rt, "both") == 0
 
